@@ -124,7 +124,7 @@ def check_transfer(res, params, seed):
                                   "returned %r" % out["code"], "message.py:_append_response_block", case, key="etag"))
         if not out["done"]:
             res.violate(Violation("transfer-hangs", "ends", "pending", "protocol.py", case, key="hang-" + mis[0]))
-        if out["done"] and not failed_loudly and mis[0] in ("b1-wrong-num", "b1-more-on-final", "b1-continue-on-final") and method != "GET" and bit(params):
+        if out["done"] and not failed_loudly and mis[0] in ("b1-wrong-num", "b1-lower-num", "b1-more-on-final", "b1-continue-on-final") and method != "GET" and bit(params):
             res.violate(Violation("protocol-violation-accepted", "error", "returned %r" % out["code"], "protocol.py:BlockwiseRequest._run", case, key=mis[0]))
     if out["loopexc"]:
         res.violate(Violation("loop-exception", "none", out["loopexc"], "loop", case, key="loop"))
@@ -142,6 +142,8 @@ def bit(params):
         return False       # sent unfragmented: no Block1 acknowledgement to misbehave in
     if mis[0] == "b1-wrong-num":
         return mis[1] < nblocks      # intermediate acknowledgements and the final one
+    if mis[0] == "b1-lower-num":
+        return 1 <= mis[1] < nblocks - 1     # intermediate acknowledgements from block 1 on
     return True
 
 
@@ -186,6 +188,12 @@ def grid(tier):
                 for at in (0, 1, 2, 3):
                     for l1 in {0: (40, 100), 2: (150, 330), 4: (600, 1300)}[cexp]:
                         out.append((method, l1, 20, sszx, cexp, None, None, ("ok-own-szx", at)))
+    # a conforming server that handles every block on its own (2.04 with M=0 for non-final blocks, from block k on)
+    for method in ("PUT", "POST"):
+        for szx in (0, 2, 6):
+            for at in (0, 1, 2):
+                for l1 in {0: (17, 40, 100), 2: (65, 150, 330), 6: (1125, 2049, 3000)}[szx]:
+                    out.append((method, l1, 20, szx, szx, None, None, ("ok-stateless", at)))
     for method in ("PUT", "POST"):
         for sszx in (1, 2, 3, 6):
             for rto in range(0, sszx):
@@ -196,7 +204,7 @@ def grid(tier):
     return out
 
 
-MISBEHAVIOURS = ("b1-wrong-num", "b1-more-on-final", "b1-continue-on-final", "b2-short", "b2-etag", "b2-etag-dropped", "b2-skip", "b2-stale",
+MISBEHAVIOURS = ("b1-wrong-num", "b1-lower-num", "b1-more-on-final", "b1-continue-on-final", "b2-short", "b2-etag", "b2-etag-dropped", "b2-skip", "b2-stale",
                  "b2-more-past-end", "b2-408-midway", "b2-503-midway", "b2-plain-midway", "b2-empty")
 
 
